@@ -5,7 +5,9 @@
 #include <cassert>
 #include <igris/util/ctrdtr.h>
 #include <initializer_list>
+#include <iterator>
 #include <memory>
+#include <type_traits>
 #include <utility>
 
 #include <stdexcept>
@@ -83,7 +85,13 @@ namespace igris
 
         template <class I, class O> vector(I first, O last)
         {
-            reserve(std::distance(first, last));
+            // Measuring a single-pass (input iterator) range would consume it:
+            // size the buffer in advance only when the range can be walked
+            // twice.
+            if (std::is_base_of<
+                    std::forward_iterator_tag,
+                    typename std::iterator_traits<I>::iterator_category>::value)
+                reserve(std::distance(first, last));
             for (; first != last; first++)
             {
                 push_back(*first);
